@@ -64,6 +64,20 @@ package rules
 //	M18  basicauth.go  strings.SplitN(creds, ":", 3)                                  → R-C06-5
 //	M19  basicauth.go  strings.LastIndex split                                        → R-C06-5
 //
+// Second pass (seeded regressions a and b, both missed by the first version, now caught):
+//
+//	seeded a  signer.go  buildCanonicalURI: `uri = u.Path`                          → R-C06-4 canonical path is the wire (escaped) form
+//	A2   signer.go     `p := u.Path; if p == "" { p = "/" }; uri = p`                → same
+//	A3   signer.go     hashCanonicalRequest hands buildCanonicalURI &url.URL{Path: req.URL.Path} → same
+//	A4   signer.go     `uri, _ = url.PathUnescape(u.EscapedPath())`                  → same
+//	AE1  signer.go     (preserving) switch on Opaque, `escaped := u.EscapedPath()`, u.Path only in a condition → silent
+//	seeded b  jwt.go   jwt.ParseWithClaims(token, &jwt.StandardClaims{}, kf)         → R-C06-2 claims container admits every RFC 7519 form
+//	B2   oauth2.go     same change in OAuth2Validator.Validate                       → same (OAuth2Validator)
+//	B3   jwt.go        local struct embedding StandardClaims, new(jwt.Parser).ParseWithClaims(token, claims, kf) → same
+//	B4   jwt.go        own claims type with `ExpiresAt int64 json:"exp"`              → same (exp integer)
+//	BE1  jwt.go        (preserving) (&jwt.Parser{}).ParseWithClaims(token, jwt.MapClaims{}, kf) → silent
+//	BE2  jwt.go        (preserving) own claims type with aud interface{}, exp/nbf float64 → silent
+//
 // Not caught (outside the decided clauses, see NotDecided): N1 verify rebuilds the canonical headers from
 // empty values; N2 getCanonicalQuery keeps only the first value of every parameter (both are caught by the
 // signer's known-answer tests).
@@ -111,9 +125,9 @@ func init() { Registry["C06"] = c06 }
 
 func c06(c *core.Ctx) string {
 	c.Rule("R-C06-1", "all methods must pass: in Validator.Handle the \"\" result is reachable only in states where every validator field is nil or its Validate/Verify call returned nil; a non-empty result is returned only after some validator returned an error, is a declared result of the kind, and on that path an output response with status 400 (header rules) / 401 (credentials) has been set")
-	c.Rule("R-C06-2", "algorithm pinning: every key function handed to jwt.Parse returns a key only on the edge where token.Method.Alg() equals the configured algorithm, and the key is not derived from the token; JWTValidator.Validate accepts only with the verdict of jwt.Parse")
+	c.Rule("R-C06-2", "algorithm pinning: every key function handed to jwt.Parse returns a key only on the edge where token.Method.Alg() equals the configured algorithm, and the key is not derived from the token; JWTValidator.Validate accepts only with the verdict of jwt.Parse; the claims container handed to the parser can hold every RFC 7519 form of aud/exp/nbf/iat (untyped Parse, a map, or a struct whose fields do not narrow them)")
 	c.Rule("R-C06-3", "signed body is the forwarded body: no code outside httpprot reads or replaces net/http.Request.Body of the request underlying an httpprot.Request (value of Std() / the embedded field, or a copy of it whose Body has not been re-assigned): after FetchPayload that body is drained and the payload is authoritative")
-	c.Rule("R-C06-4", "signature covers the parts: hashCanonicalRequest feeds method, path, query, canonical headers, signed-header list and body hash into the digest; on verify the query comes from the request URL and the body hash never from a request header; Verify accepts only when the presented signature equals the one recomputed by sign")
+	c.Rule("R-C06-4", "signature covers the parts: hashCanonicalRequest feeds method, path (in its wire/escaped form, never the decoded URL.Path), query, canonical headers, signed-header list and body hash into the digest; on verify the query comes from the request URL and the body hash never from a request header; Verify accepts only when the presented signature equals the one recomputed by sign")
 	c.Rule("R-C06-5", "Basic credentials are split at the first colon only (RFC 7617: the password may contain ':'), never by a full split whose tail is dropped")
 	c.Rule("R-C06-6", "TTL window: Signer.Verify accepts only if (ttl disabled or -ttl <= age <= ttl) and (not presigned or age <= expire time)")
 	c.NotDecided = []string{
